@@ -203,7 +203,7 @@ def run_session(sess: Dict[str, Any], world_dir: str, emit: Callable[[Dict[str, 
     import logging
     try:
         from hta.configs.config import logger as hta_logger
-        hta_logger.setLevel(logging.CRITICAL)
+        hta_logger.setLevel(getattr(logging, str(sess.get("env", {}).get("log_level", "CRITICAL")), logging.CRITICAL))
     except Exception:  # noqa: BLE001
         pass
     import random
